@@ -97,6 +97,8 @@ def run_shard(spec, tier, seed, budget_s):
         while k < target and not sh.out_of_time():
             k += 1
             size = rng.choice(['tiny', 'small', 'small', 'medium'] + (['large'] if tier == 'thorough' else []))
+            if k <= 2:
+                size = 'large'          # a few big documents in every tier (many tables, references, indexes)
             kwp = rng.random() < 0.15
             doc = gen.random_doc(rng, size, text_profile=rng.choice(['plain', 'rich']),
                                  props=rng.random() < 0.3 and not kwp, flavours=('kwprefix',) if kwp else gen.CORE_FLAVOURS)
